@@ -5,6 +5,7 @@
    Used by Proofs/C05SrcP.v, C07SrcP.v, C12SrcP.v, C18SrcP.v, ... *)
 From CV Require Import Model.Base Model.Effector Model.RoleGraph Model.Expr Model.Enforce Model.Engine.
 From CV Require Import Proofs.SrcStepP.
+From CV Require Import Proofs.BaseP.
 
 Section SrcQueries.
   Variable ptab : text -> option expr.
@@ -15,8 +16,11 @@ Section SrcQueries.
     | Some subjects, Some roles =>
       let cand := subjects ++ flat_map (fun r => get_users (f_rm (e_fs s)) r None) roles in
       let users := filter (fun u => negb (memb teqb u roles)) cand in
-      Some (dedup (filter (fun u => match src_enforce ptab s (map VStr (u :: perm)) with
-                                    | Ok true => true | _ => false end) users) [])
+      if existsb (fun u => match src_enforce ptab s (map VStr (u :: perm)) with
+                           | Panic => true | _ => false end) users
+      then None
+      else Some (dedup (filter (fun u => match src_enforce ptab s (map VStr (u :: perm)) with
+                                         | Ok true => true | _ => false end) users) [])
     | _, _ => None
     end.
 
@@ -47,7 +51,16 @@ Section SrcQueries.
     intros s perm. unfold src_implicit_users, implicit_users.
     destruct (m_values (e_model s) s_p s_p 0) as [subjects|]; [|reflexivity].
     destruct (m_values (e_model s) s_g s_g 1) as [roles|]; [|reflexivity].
-    cbv zeta. do 2 f_equal. apply filter_ext. intros u. rewrite src_enforce_eq. reflexivity.
+    cbv zeta.
+    rewrite (existsb_ext_pt
+               (fun u => match src_enforce ptab s (map VStr (u :: perm)) with Panic => true | _ => false end)
+               (fun u => match enforce ptab s (map VStr (u :: perm)) with Panic => true | _ => false end))
+      by (intros u; cbv beta; rewrite src_enforce_eq; reflexivity).
+    rewrite (filter_ext
+               (fun u => match src_enforce ptab s (map VStr (u :: perm)) with Ok true => true | _ => false end)
+               (fun u => match enforce ptab s (map VStr (u :: perm)) with Ok true => true | _ => false end))
+      by (intros u; cbv beta; rewrite src_enforce_eq; reflexivity).
+    reflexivity.
   Qed.
 
   Lemma src_ask_eq : forall s q, src_ask s q = ask ptab s q.
